@@ -86,8 +86,8 @@ CLAIMS: dict[str, tuple[str, str, str, str]] = {
         "spellings normalises like the LF source), normalize_clean (no CR/NUL survives), nul_like_fffd, "
         "indent_cols, marker_tab (+ marker_tab_spellings: the block-quote marker arithmetic depends only on "
         "the absolute column the blank run reaches, at any nesting depth); end to end for the modelled sub-parsers "
-        "(Props/C17b.lean q_line_endings, q_nul, l_line_endings, l_nul, mini_*: any mixture of line-ending spellings and NUL vs U+FFFD give "
-        "the same token stream, for every source, rule subset and maxNesting; models tied by `miniblock`/`qblock`/`lblock`). PARTIAL: the full tab congruence "
+        "(Props/C17b.lean q_line_endings, q_nul, l_line_endings, l_nul, mini_*; Props/C17c.lean m_line_endings, m_nul with html_block and lheading: any mixture of line-ending spellings and NUL vs U+FFFD give "
+        "the same token stream, for every source, rule subset and maxNesting; models tied by `miniblock`/`qblock`/`lblock`/`mblock`). PARTIAL: the full tab congruence "
         "(every rule depends on a prefix spelling only through getLines; list-marker arithmetic) is not a "
         "theorem and is decided by the oracle, exhaustive over the property's constructed family. That equal "
         "normalize results give equal parses rests on normalize being the first core rule (pinned by T1). "
@@ -106,7 +106,7 @@ CLAIMS: dict[str, tuple[str, str, str, str]] = {
         "source; xmini_no_html (Props/C04b.lean, from C10.xmini_provenance): with the html option off the modelled inline "
         "sub-parser (text, newline, escape, backticks, strikethrough, emphasis, autolink, html_inline, entity; regular "
         "expressions translated from the live pattern objects) emits no html_inline token, for every source, rule subset and "
-        "maxNesting. PARTIAL: for html_block and the rules outside the sub-parser 'html off => no html token and only vocabulary "
+        "maxNesting. Likewise m_no_html (Props/C10f.lean) for block-level HTML in the block sub-parser with nine of the eleven rules. PARTIAL: for the rules outside the two sub-parsers 'html off => no html token and only vocabulary "
         "tags' is carried by T1 + its dynamic twin, not by a parser theorem; proper nesting of output tags is decided by the "
         "output lexer on the implementation (incl. a bounded-exhaustive delimiter sweep), not proved. Tie: "
         "renderer model vs real RendererHTML on generated streams/configurations, escapeHtml exhaustively per "
@@ -184,7 +184,7 @@ CLAIMS: dict[str, tuple[str, str, str, str]] = {
         "balance_pairs, _postProcess; tie: `inline`) and emini_wellformed (Props/C02f.lean) proves for every source, rule subset with "
         "emphasis on, maxNesting and character classification that the inline stream is levelled from 0, balanced, and builds a tree. "
         "emini_tags_nested (Props/C02g.lean): its opening and closing tokens pair up by tag in stack order (the HTML written for them is "
-        "properly nested), from pairs_laminar via nest_of_desc. MISSING: the same through strikethrough's lone-marker swap (modelled, tied, "
+        "properly nested), from pairs_laminar via nest_of_desc. m_wellformed (Props/C02h.lean): the same for the block sub-parser with html_block and lheading (nine of the eleven block rules; tie `mblock`). MISSING: the same through strikethrough's lone-marker swap (modelled, tied, "
         "total — not in the nesting theorems), link/image; and K5 for the remaining block/inline rules (monitored). Both are decided by the oracle: the property's predicate on every stream, recursively, "
         "incl. a bounded-exhaustive delimiter sweep. Known finding K-C02-1 (parseInline wrapper not flagged block, "
         "pinned by a test).",
@@ -217,7 +217,10 @@ CLAIMS: dict[str, tuple[str, str, str, str]] = {
         "objects on every run (harness/gen_regex.py -> MdIt/Generated/Regex.lean, run by Rx.ends in Python's backtracking order; T1 obligations: "
         "none of them matches the empty string, DIGITAL_RE matches only what int() accepts), for every value of the external functions (entity "
         "table, mdurl reformatting, normalizeLinkText, html option): nine of the twelve inline rules (tie: `inlinex` + regex sub-tie `rx`). "
-        "MISSING: for the other rules (table, reference, html_block, lheading; link, image, linkify) the "
+        "On the block side m_total (Props/C01h.lean) adds html_block (HTML_SEQUENCES translated from the live pattern objects) and lheading "
+        "(setext scan with its terminator chain; the parentType it leaves behind on a miss is modelled): nine of the eleven block rules, any subset, "
+        "either value of the html option (tie: `mblock`, 3k/80k documents). "
+        "MISSING: for the other rules (table, reference; link, image, linkify) the "
         "contracts stay hypotheses, monitored on every "
         "call of every real rule (harness/monitor.py, ~47k rule calls per quick run); renderer/CLI totality "
         "and the CPython stack limit by oracle (time-limited sweeps: random x configurations, bounded-exhaustive "
@@ -235,7 +238,7 @@ CLAIMS: dict[str, tuple[str, str, str, str]] = {
         "stages (maps nest). The map contract is PROVED for code, fence, hr, heading, paragraph (Props/C03b.lean "
         "mapOK_*), giving the unconditional mini_staged for that sub-parser (model tied by the `miniblock` "
         "differential runs); with block quotes (Props/C03c.lean): loop_maps_final (stages end no later than the loop's "
-        "final line), mapOK of the quote rule (its tokens lie inside its patched map), q_staged; with lists (Props/C03d.lean): lChain_maps (a list's patched map encloses its items; items have non-empty, increasing, adjacent ranges; an item's map encloses its nested run), l_staged. MISSING: for the other rules the map contract is a hypothesis (monitored on every real rule call); "
+        "final line), mapOK of the quote rule (its tokens lie inside its patched map), q_staged; with lists (Props/C03d.lean): lChain_maps (a list's patched map encloses its items; items have non-empty, increasing, adjacent ranges; an item's map encloses its nested run), l_staged. m_staged (Props/C03e.lean) with html_block and lheading as well (a setext heading's opening token spans content and underline, its inline token the content lines). MISSING: for the other rules (table, reference) the map contract is a hypothesis (monitored on every real rule call); "
         "'starts/ends on a non-blank line', inline content lines and coverage of every non-blank line are decided "
         "by the oracle (the property's predicate on streams and env; bounded-exhaustive line documents). Known "
         "finding K-C03-1 (str.strip() drops lines made of Unicode blanks from inline content).",
@@ -272,6 +275,7 @@ CLAIMS: dict[str, tuple[str, str, str, str]] = {
         "no code span without backticks, no s/em/strong without strikethrough/emphasis, no link without autolink, no raw HTML without "
         "html_inline and the html option, no text_special without escape or entity — by a generic engine (IAdds: a rule only appends "
         "tokens of its own kind; the loop and the second chain keep any token predicate closed under re-levelling and retyping). "
+        "m_provenance / m_no_html / m_no_heading (Props/C10f.lean): nine of the eleven block rules — html_block tokens only with the rule and the html option on. "
         "MISSING: provenance for the other rules and the "
         "conservative-extension clause need per-rule models: decided by the oracle (token kinds under random rule subsets; "
         "table/strikethrough on vs off on trigger-free inputs; definition options erase to the plain parse, env and HTML equal; "
